@@ -27,7 +27,11 @@ ARITH = ["+", "-", "*", "/", "//", "%", "**"]
 CMP = ["<", "<=", "==", "!=", ">", ">="]
 UNOPS = ["-", "+", "not", "~"]
 M_SUCC, M_PRED, M_BIT_COUNT, M_PUSH, M_SUM, M_ABS, M_LEN, M_ABSF = 0, 1, 2, 8, 10, 30, 40, 41
-METHOD_NAMES = {M_SUCC: "succ", M_PRED: "pred", M_BIT_COUNT: "bit_count", M_PUSH: "push", M_SUM: "sum", M_ABS: "abs"}
+# length-changing immutable List methods with a length-indexed declared result (classes.rs: insert : N + 1,
+# remove_at : N - 1, repeat(M) : N * M); not in the Coq model (its checker rejects them): judged by has_ty only
+M_INSERT, M_REMOVE_AT, M_REPEAT = 50, 51, 52
+METHOD_NAMES = {M_SUCC: "succ", M_PRED: "pred", M_BIT_COUNT: "bit_count", M_PUSH: "push", M_SUM: "sum", M_ABS: "abs",
+                M_INSERT: "insert", M_REMOVE_AT: "remove_at", M_REPEAT: "repeat"}
 FUNC_NAMES = {M_LEN: "len", M_ABSF: "abs"}
 # attributes no builtin class of the fragment has / methods of another class (used by the attribute mutation)
 BOGUS_METHODS = {90: "frobnicate", 91: "succc", 92: "push_back", 93: "upperr"}
@@ -290,7 +294,23 @@ class Gen:
             prods.append((4, "var"))
         if d > 0 and n is None:
             prods += [(3, "push"), (3, "concat")]
+            if self.profile == "c34":
+                prods += [(3, "remove_at"), (3, "insert"), (2, "repeat")]
         kind = r.choices([k for _, k in prods], weights=[w for w, _ in prods])[0]
+        if kind in ("remove_at", "insert", "repeat"):
+            l, t = self.list_expr(TList(ety), d - 1)
+            m = t[2]
+            # index at the boundaries: 0, N - 1, N, N + 1, large (at or beyond the end remove_at raises IndexError:
+            # the binding then holds nothing; insert appends)
+            idx = r.choice([0, max(m - 1, 0), max(m - 1, 0), r.randint(0, max(m - 1, 0)), m, m + 1, 1000])
+            if kind == "remove_at":
+                if m == 0:
+                    return l, t
+                return [E_METH, M_REMOVE_AT, l, [lit(0, idx)]], TList(ety, m - 1)
+            if kind == "insert":
+                return [E_METH, M_INSERT, l, [lit(0, idx), self.expr(ety, d - 1)[0]]], TList(ety, m + 1)
+            k = r.choice([0, 1, 2, 2, 3])
+            return [E_METH, M_REPEAT, l, [lit(0, k)]], TList(ety, m * k)
         if kind == "var":
             i, t = r.choice(vs)
             return [E_VAR, i], t
